@@ -254,6 +254,34 @@ func (w *pworld) apply(o pop) (fs []F) {
 			}
 			p.cells = nc
 		}
+	case "appendpeer":
+		// another buffer of the same pool, still checked out, is appended to this one (both hold whole
+		// frames); afterwards one cell of this buffer is rewritten: the two must not share storage
+		q := w.out[o.A]
+		if pn, msg := dyn.Try(func() { p.b.Append(q.b) }); pn {
+			fail("use-panic", "Append of another buffer of the pool panicked: %s", msg)
+			return
+		}
+		vals := append([]int64{}, q.cells[:q.n]...)
+		if p.n+len(vals) <= len(p.cells) {
+			copy(p.cells[p.n:], vals)
+			p.n += len(vals)
+		} else {
+			nc := make([]int64, p.b.Cap())
+			copy(nc, p.cells[:p.n])
+			copy(nc[p.n:], vals)
+			p.n += len(vals)
+			fb := full(p.b)
+			for i := p.n; i < len(nc) && i < fb.Len(); i++ {
+				nc[i] = fb.Sample(i).Tok()
+			}
+			p.cells = nc
+		}
+		if len(p.cells) > 0 {
+			x := w.next()
+			full(p.b).SetSample(0, dyn.Tok(w.t, x))
+			p.cells[0] = x
+		}
 	case "stampall":
 		fb := full(p.b)
 		for i := range p.cells {
@@ -332,6 +360,9 @@ func (w *pworld) ops(maxOut int) []pop {
 		r = append(r, pop{K: "asample", H: h})
 		if p.n%C == 0 {
 			r = append(r, pop{K: "appendbuf", H: h})
+			if a := (h + 1) % len(w.out); a != h && w.out[a].n%C == 0 && w.out[a].n > 0 {
+				r = append(r, pop{K: "appendpeer", H: h, A: a})
+			}
 		}
 		if len(p.cells) > 0 {
 			r = append(r, pop{K: "stampall", H: h})
